@@ -153,19 +153,57 @@ func (res *Response) unlockStores() {
 	res.lockedStores = nil
 }
 
-func (res *Response) getAffectedTables(reqTable *Table) []TableName {
-	if len(reqTable.refTables) == 0 {
-		return ([]TableName{reqTable.name})
-	}
-
+// getAffectedTables returns the tables which have to be locked to answer the request: the requested table plus
+// every table a requested, filtered, counted or sorted column reads from (reference columns and the virtual
+// columns which look into other tables), sorted by table id.
+func (res *Response) getAffectedTables(_ *Table) []TableName {
 	uniq := map[TableName]bool{
 		res.request.Table: true,
 	}
 
-	for _, col := range res.request.RequestColumns {
-		if col.StorageType == RefStore {
-			uniq[col.RefCol.Table.name] = true
+	addColumn := func(col *Column) {
+		if col == nil {
+			return
 		}
+		if col.StorageType == RefStore && col.RefCol != nil {
+			uniq[col.RefCol.Table.name] = true
+			col = col.RefCol
+		}
+		if col.StorageType == VirtualStore && col.Table != nil {
+			switch col.Name {
+			case "services_with_state", "services_with_info":
+				uniq[TableServices] = true
+			case "comments_with_info":
+				uniq[TableComments] = true
+			case "downtimes_with_info":
+				uniq[TableDowntimes] = true
+			case "members_with_state":
+				if col.Table.name == TableHostgroups {
+					uniq[TableHosts] = true
+				} else {
+					uniq[TableServices] = true
+				}
+			default:
+				// all other virtual columns read the row itself or the peer
+			}
+		}
+	}
+	var addFilter func(filter []*Filter)
+	addFilter = func(filter []*Filter) {
+		for _, f := range filter {
+			addColumn(f.column)
+			addFilter(f.filter)
+		}
+	}
+
+	for _, col := range res.request.RequestColumns {
+		addColumn(col)
+	}
+	addFilter(res.request.Filter)
+	addFilter(res.request.Stats)
+	addFilter(res.request.StatsGrouped)
+	for _, field := range res.request.Sort {
+		addColumn(field.Column)
 	}
 
 	tables := slices.Collect(maps.Keys(uniq))
